@@ -5,6 +5,7 @@ import (
 	"bytes"
 	"sort"
 	"encoding/json"
+	"encoding/hex"
 	"fmt"
 	"math/big"
 	"strings"
@@ -253,6 +254,34 @@ func c10(r *hx.Run) {
 				}
 				emitWorld(r, world.Build(s), nil, "collateral-signature-length:"+which)
 			}
+		}
+	}
+	// a genuinely signed QE Identity / TCB Info whose hex-string members have every length but the right one — ONE member at a
+	// time (the other members keep their size): the fixed-width reads behind them must be guarded one by one
+	for _, n := range []int{0, 1, 2, 3, 5, 8, 15, 17, 31, 33, 47, 49} {
+		for fi, name := range []string{"miscselect", "miscselectMask", "attributes", "attributesMask", "mrsigner", "tdx-mrsigner", "tdx-attributes", "tdx-attributesMask"} {
+			s := honestSpec(rng)
+			s.GC, s.CR, s.Honest, s.Fault = true, rng.IntN(4) == 0, false, fmt.Sprintf("identity-member-%s-of-%d-bytes", name, n)
+			v := hex.EncodeToString(hx.RandBytes(rng, n))
+			switch fi {
+			case 0:
+				s.Qe.Miscselect = v
+			case 1:
+				s.Qe.MiscselectMask = v
+			case 2:
+				s.Qe.Attributes = v
+			case 3:
+				s.Qe.AttributesMask = v
+			case 4:
+				s.Qe.Mrsigner = v
+			case 5:
+				s.Tcb.Mrsigner = v
+			case 6:
+				s.Tcb.Attributes = v
+			default:
+				s.Tcb.Mask = v
+			}
+			emitWorld(r, world.Build(s), nil, "collateral-member-length:"+name)
 		}
 	}
 	for _, mode := range []string{"absent", "two", "three", "empty", "novalues", "nilvalues", "badescape", "wrongtype", "garbageder"} {
